@@ -1,8 +1,5 @@
 """C11 - accepted deletions are permanent; deletion times never move backwards."""
-import os
 import random
-import re
-import shutil
 
 import common as C
 from dbengine import DbEngine
@@ -52,79 +49,17 @@ class Engine(DbEngine):
         if sub.random() < 0.3:
             progs.append(['store ' + C.t_event(cov)])
         sub.shuffle(progs)
-        obs = 'obs %s L0' % C.tl([C.tb(cov['id']), C.tb(dreq['id'])])
-        names = C.tl(C.tb(n) for n in g.names)
-        line = 'conc %s %s %s ; S %s%s ; F ; %s' % (names, C.tn(sub.getrandbits(40)), C.tn(sub.choice([50, 150, 300, 600])),
-                                                   ''.join(' ; ' + o for o in setup), ''.join(' ; T' + ''.join(' ; ' + o for o in p) for p in progs), obs)
+        line = self.race_line(sub, g, setup, progs, [cov['id'], dreq['id']])
         dpos = [t for t, p in enumerate(progs) if p[0] == 'store ' + C.t_event(dreq)][0]
         return ('deletion-race:' + ('addr' if by_addr else 'id'), line), {'dreq_thread': dpos}
 
     def judge_race(self, meta, out):
-        if not out.startswith('conc sched='):
-            return Verdict(oracle_ok=False, cls='concurrent-run-died', detail=out[:120], outcome='died')
-        if re.search(r'sched=\S*(WATCHDOG|DEADLOCK)', out):
-            return Verdict(corr_ok=False, cls='schedule-controller', detail='controller stuck', outcome='stuck')
-        rs = re.search(r' resp=(.*?) final=', out)
-        resp = {}
-        for part in (rs.group(1).split(' ;; ') if rs and rs.group(1) else []):
-            k, _, v = part.partition('=')
-            resp[k] = v
-        accepted = resp.get('%d.0' % meta['dreq_thread'], '').startswith('ok')
-        fin = re.search(r' final=ids=(\S*)', out)
-        flags = fin.group(1).split(',') if fin else []
+        resp, flags = self.race_parse(out)
         if not flags:
             return Verdict(corr_ok=False, cls='unparsable-output', detail=out[:120], outcome='unparsable')
-        has_cov = flags[0].startswith('1')
-        if accepted and has_cov:
+        accepted = resp.get('%d.0' % meta['dreq_thread'], '').startswith('ok')
+        if accepted and flags[0].startswith('1'):
             return Verdict(oracle_ok=False, cls='covered-event-retrievable-after-accepted-deletion',
                            detail='the deletion request was accepted (%s) and the event it covers is retrievable when all submitters have returned' % resp.get('%d.0' % meta['dreq_thread']),
                            outcome='retrievable')
         return Verdict(outcome='race-ok' if accepted else 'race-refused', nontrivial=True)
-
-    def run(self, rng, tier, seed):
-        res = super().run(rng, tier, seed)
-        rundir = os.path.join(C.CACHE, 'run', 'C11c-%d' % os.getpid())
-        os.makedirs(rundir, exist_ok=True)
-        env = dict(C.ENV)
-        env['VERIF_RUN_DIR'] = rundir
-        try:
-            cases = [self.make_race(rng) for _ in range(self.races['quick' if tier == 'quick' else 'thorough'])]
-            outs = C.run_lines(C.harness_exe('debug'), [c[0][1] for c in cases], env=env, shards=8)
-        finally:
-            shutil.rmtree(rundir, ignore_errors=True)
-        dist = res['stats']['distribution']
-        scheds = set()
-        for ((gcls, line), meta), o in zip(cases, outs):
-            v = self.judge_race(meta, o)
-            key = '%s/%s' % (gcls, v.outcome)
-            dist[key] = dist.get(key, 0) + 1
-            m = re.search(r'sched=(\S*)', o)
-            scheds.add(m.group(1) if m else line)
-            payload = {'kind': 'schedule', 'seed': seed, 'case': line, 'class': gcls, 'impl': o[:4000], 'dreq_thread': meta['dreq_thread']}
-            if not v.oracle_ok:
-                payload['oracle'] = v.detail
-                res['failures'].append(('oracle', v.cls, payload))
-            elif not v.corr_ok:
-                payload['correspondence'] = v.detail
-                res['failures'].append(('corr', v.cls, payload))
-        res['stats']['evaluations'] += len(cases)
-        res['stats']['distinct_nontrivial'] += len(scheds)
-        res['stats'].setdefault('extra', {})['deletion_races'] = len(cases)
-        res['failures'].sort(key=lambda f: (f[0] != 'oracle', len(f[2]['case'])))
-        return res
-
-    def replay(self, payload):
-        if payload.get('kind') != 'schedule':
-            return super().replay(payload)
-        rundir = os.path.join(C.CACHE, 'run', 'C11r-%d' % os.getpid())
-        os.makedirs(rundir, exist_ok=True)
-        env = dict(C.ENV)
-        env['VERIF_RUN_DIR'] = rundir
-        C.build_harness(self.profiles)
-        out = C.run_lines(C.harness_exe('debug'), [payload['case']], env=env)
-        shutil.rmtree(rundir, ignore_errors=True)
-        v = self.judge_race({'dreq_thread': payload.get('dreq_thread', 0)}, out[0])
-        print('case: %s' % payload['case'][:1500])
-        print('impl (this run; the schedule is re-derived from the same seed): %s' % out[0][:3000])
-        print('oracle: %s %s' % ('ok' if v.oracle_ok else 'FAILS', v.detail))
-        return 0 if (v.oracle_ok and v.corr_ok) else 1
